@@ -55,7 +55,7 @@ def record(src):
         attrs, what, name = m.group(1), m.group(2), m.group(3)
         if "Serialize" not in attrs and "Deserialize" not in attrs:
             continue
-        ser = "Serialize" in attrs.replace("Deserialize", "")
+        ser = "Serialize" in attrs.replace("Deserialize", "") or re.search(r"impl Serialize for %s \{" % name, src) is not None
         start = m.end()
         if m.group(4) == "(":
             inner = src[start:src.index(")", start)]
@@ -92,11 +92,23 @@ def record(src):
             if not ser:
                 s += ":deonly"
             out.append(s)
+        # a hand-written Serialize impl: fields it may leave out (`skip_field`) are omitted in
+        # human-readable formats only
+        hw = re.search(r"impl Serialize for %s \{(.*?)\n\}\n" % name, src, re.S)
+        if hw:
+            for w in re.findall(r'skip_field\("(\w+)"\)', hw.group(1)):
+                for k, e in enumerate(out):
+                    if e.startswith("%s.%s:" % (name, w)):
+                        parts = e.split(":")
+                        flag = "skipIfNone" if parts[1].startswith("opt(") else "skipIfEmpty"
+                        out[k] = ":".join(parts[:2] + [flag, "hrOnly"] + parts[2:])
     # the two hand-written Deserialize impls: legacy fields of the V1 helper structs
     for helper, legacy in (("CredentialPrimaryPublicKeyV1", "rms"), ("PrimaryEqualProofV1", "m1")):
         m = re.search(r"struct %s \{(.*?)\n        \}" % helper, src, re.S)
         if m and re.search(r"#\[serde\(default\)\]\s*%s: BigNumber" % legacy, m.group(1)):
-            out.append("%s.%s:legacy(master_secret)" % (helper[:-2], legacy))
+            # the legacy field must be the LAST slot of the helper (positional formats)
+            last = re.findall(r"(\w+): [\w<>, /*]+,?\s*$", m.group(1).strip(), re.M)[-1]
+            out.append("%s.%s:legacy(master_secret)%s" % (helper[:-2], legacy, ":last" if last == legacy else ""))
     return out
 
 
